@@ -474,21 +474,21 @@ func appendInt(dst []byte, bits uint8, index uint64) []byte {
 	}
 	b0 := uint64(1<<bits - 1)
 
-	if index <= b0 {
+	if index < b0 {
 		dst[len(dst)-1] |= byte(index)
 		return dst
 	}
 
+	// a value of 2^N-1 or more fills the prefix and continues, if only with a
+	// zero octet
 	dst[len(dst)-1] |= byte(b0)
 	index -= b0
-	for index != 0 {
+	for index >= 128 {
 		dst = append(dst, 128|byte(index&127))
 		index >>= 7
 	}
 
-	dst[len(dst)-1] &= 127
-
-	return dst
+	return append(dst, byte(index))
 }
 
 // readString reads string from a header field.
